@@ -106,7 +106,15 @@ def _main_impl():
         if b["replay"] is None:
             print(json.dumps({"reproduced": False, "error": "no replay function"}))
             return
-        print(json.dumps(b["replay"](mod, w), default=str))
+        try:
+            res = b["replay"](mod, w)
+        except KeyError:
+            # some replay functions take the input record itself, the failure record nests it under "input"
+            if isinstance(w, dict) and isinstance(w.get("input"), dict):
+                res = b["replay"](mod, w["input"])
+            else:
+                raise
+        print(json.dumps(res, default=str))
         return
     try:
         r = b["fn"](mod, tier, seed)
